@@ -11,7 +11,7 @@ import (
 	"verif/mc"
 )
 
-var userActions = []string{"fail-next-commit", "fail-next-read", "ini-pause", "ini-resume", "rsp-pause", "rsp-resume", "ini-voucher", "rsp-voucher-result", "disconnect", "heal", "restart-rsp", "tick"}
+var userActions = []string{"restart-ini", "fail-next-commit", "fail-next-read", "ini-pause", "ini-resume", "rsp-pause", "rsp-resume", "ini-voucher", "rsp-voucher-result", "disconnect", "heal", "restart-rsp", "tick"}
 
 func terminal(s datatransfer.Status) bool {
 	return s == datatransfer.Completed || s == datatransfer.Failed || s == datatransfer.Cancelled
@@ -56,6 +56,8 @@ func (r *runCtx) doAction(a string) {
 		err = r.ini.Mgr.RestartDataTransferChannel(ctx, r.chid)
 	case "restart-rsp":
 		err = r.rsp.Mgr.RestartDataTransferChannel(ctx, r.chid)
+	case "restart-ini":
+		err = r.ini.Mgr.RestartDataTransferChannel(ctx, r.chid)
 	case "tick":
 		time.Sleep(2 * time.Second)
 	case "fail-next-commit":
@@ -109,6 +111,7 @@ func explore(x *mc.Cell, sc Scenario, c *mc.Chooser, name string, withActions bo
 		idleRounds := 0
 		for step := 0; step < 200; step++ {
 			mc.Wait()
+			r.invariant(x, mc.EnumReplay(name, c))
 			items, apps := r.pendingMenu()
 			var menu []string
 			for _, it := range items {
@@ -150,6 +153,7 @@ func explore(x *mc.Cell, sc Scenario, c *mc.Chooser, name string, withActions bo
 		// drain: heal, resume what we paused, release everything, let the application finish its work
 		for round := 0; round < 60; round++ {
 			mc.Wait()
+			r.invariant(x, mc.EnumReplay(name, c))
 			if r.usedActions["down"] {
 				r.doAction("heal")
 			}
